@@ -169,13 +169,23 @@ def replay(case):
             body = u'<m:msg xmlns:m="%s" a=%s>%s<m:in>x</m:in>%s</m:msg>' % (NS_M, quoteattr(text.replace('\n', ' ')), escape(text), escape(text))
             msg = {'none': u'', 'tool': u'<?xml version="1.0" encoding="UTF-8"?>\n', 'short': u'<?xml version="1.0"?>\n',
                    'standalone': u"<?xml version='1.0' encoding='utf-8' standalone='yes'?>\n"}[scn['decl']] + body
+            nhead = scn.get('headers', 0)
+            blocks = []
+            if nhead:
+                from saml2_tophat.profile import paos, ecp
+                blocks = [paos.Request(must_understand='1', actor='http://schemas.xmlsoap.org/soap/actor/next',
+                                       response_consumer_url='https://sp.verif.example/acs/paos', service='urn:verif:svc'),
+                          ecp.RelayState(must_understand='1', actor='http://schemas.xmlsoap.org/soap/actor/next', text='rs-1')][:nhead]
             for bname in ('soap', 'paos'):
-                info = ent.apply_binding(B[bname], msg, dest)
+                info = ent.apply_binding(B[bname], msg, dest, **({'soap_headers': blocks} if blocks else {}))
                 data = info['data']
                 raw = data if isinstance(data, bytes) else data.encode('utf-8')
                 try:
                     envl = ET.fromstring(raw)
                     got = envl.find('{http://schemas.xmlsoap.org/soap/envelope/}Body')[0]
+                    hdr = envl.find('{http://schemas.xmlsoap.org/soap/envelope/}Header')
+                    if (0 if hdr is None else len(hdr)) != nhead:
+                        problems.append('%s: %d header blocks in the envelope, %d handed over' % (bname, 0 if hdr is None else len(hdr), nhead))
                     want_el = ET.fromstring(body.encode('utf-8'))
                     if ET.canonicalize(ET.tostring(got)) != ET.canonicalize(ET.tostring(want_el)):
                         problems.append('%s: element in the envelope differs: %r vs %r' % (bname, ET.tostring(got, 'unicode'), body))
